@@ -288,10 +288,53 @@ def empty_in_cases():
     return [{"kind": "sq", "order": 2000 + k, "spec": x} for x in specs for k in range(4)]
 
 
+def subquery_operand_cases():
+    """the scalar sub-query SELECT "x" FROM "u" (the shared term family's sub-query; x is the same in every row) in every
+    operand position -- left of IN / NOT IN, IN container, BETWEEN subject and bounds, IS [NOT] NULL operand, both sides
+    of a comparison and of an arithmetic operator, under unary minus, as function argument, as CASE branch and inside a
+    CASE condition -- in WHERE, in HAVING and in the select list"""
+    sel = lambda **kw: dict({"k": "sel", "cls": "SQLLiteQuery", "joins": []}, **kw)
+    SUB = ["sub", None]
+    lst = ["tuple", [I(1), I(2)], None]
+    b = F("b", 0)
+    crits = [
+        ("in-left", ["in", SUB, lst, False, None]), ("notin-left", ["in", SUB, ["tuple", [I(5)], None], True, None]),
+        ("in-container", ["in", b, SUB, False, None]),
+        ("between-subject", ["between", SUB, I(0), b, None]), ("between-lo", ["between", b, SUB, I(5), None]),
+        ("between-hi", ["between", b, I(0), SUB, None]),
+        ("isnull", ["isnull", SUB, None]), ("notnull", ["notnull", SUB, None]),
+        ("cmp-left", ["basic", "gte", SUB, b, None]), ("cmp-right", ["basic", "lt", b, SUB, None]),
+        ("arith-left", ["basic", "gt", ["arith", "sub", SUB, b, None], I(0), None]),
+        ("arith-right", ["basic", "lte", ["arith", "sub", b, SUB, None], I(1), None]),
+        ("mul-right", ["basic", "eq", ["arith", "mul", b, SUB, None], I(4), None]),
+        ("neg", ["basic", "lt", ["neg", SUB], b, None]),
+        ("func-arg", ["basic", "eq", ["func", "COALESCE", [SUB, I(1)], None], b, None]),
+        ("case-branch", ["basic", "eq", ["case", [[["basic", "gt", b, I(1), None], SUB]], ["neg", SUB], None], I(2), None]),
+        ("case-condition", ["basic", "eq", ["case", [[["basic", "gt", SUB, b, None], I(1)]], I(0), None], I(1), None]),
+    ]
+    out = []
+    for name, c in crits:
+        out.append(sel(**{"from": [T("t")], "selects": [["t", F("id", 0)], ["t", b]], "where": ["t", c]}))
+    # the same operands as values in the select list (a criterion there is a 0/1 value)
+    nums = [["arith", "add", SUB, b, None], ["arith", "div", b, SUB, None], ["neg", SUB], ["func", "ABS", [SUB], None],
+            ["case", [[["basic", "gt", b, SUB, None], SUB]], I(0), None], SUB]
+    out.append(sel(**{"from": [T("t")], "selects": [["t", F("id", 0)]] + [["t", n] for n in nums]}))
+    for name, c in crits:
+        out.append(sel(**{"from": [T("t")], "selects": [["t", F("id", 0)], ["t", c]]}))
+    # HAVING: the same positions next to an aggregate
+    agg = ["func", "SUM", [F("b", 0)], None]
+    for name, c in [("in-left", ["in", SUB, lst, False, None]), ("cmp-right", ["basic", "gt", agg, SUB, None]),
+                    ("between-hi", ["between", agg, I(0), ["arith", "mul", SUB, I(3), None], None]),
+                    ("arith-left", ["basic", "lt", ["arith", "add", SUB, agg, None], I(9), None]),
+                    ("in-container", ["in", agg, SUB, True, None])]:
+        out.append(sel(**{"from": [T("t")], "selects": [["t", F("a", 0)], ["t", agg]], "groupby": [["t", F("a", 0)]], "having": ["t", c]}))
+    return [{"kind": "sq", "order": None, "spec": x} for x in out]
+
+
 def corpus():
     sel = lambda **kw: dict({"k": "sel", "cls": "SQLLiteQuery", "joins": []}, **kw)
     cnt = ["func", "COUNT", [["star", None]], None]
-    return brace_cases() + empty_in_cases() + correlated_cases() + window_frame_cases() + form_cases() + naming_cases() + not_cases() + [
+    return subquery_operand_cases() + brace_cases() + empty_in_cases() + correlated_cases() + window_frame_cases() + form_cases() + naming_cases() + not_cases() + [
         # F1: GROUP BY replaced by the select alias "b", which SQLite binds to the column t.b
         {"kind": "sq", "order": None, "spec": sel(
             **{"from": [T("t")], "selects": [["t", ["arith", "add", F("a", 0), I(1), "b"]], ["t", cnt]],
@@ -371,12 +414,27 @@ def run_impl(case):
 
 
 SOFT = (["C04", "groupby", "alias-of-select-item", "captured-by-source-column"], ["C04", "expression", "mul-over-div", "reassociated"],
-        ["C04", "orderby", "unqualified-column", "captured-by-select-alias"])
+        ["C04", "orderby", "unqualified-column", "captured-by-select-alias"])      # F6 statements contain a TSub: never in the fragment
+
+
+def _sub_arith_operand(spec):
+    """a scalar sub-query as a direct operand of an arithmetic operator: in a subquery=True position pypika renders it
+    with doubled parentheses, ((SELECT ...))-"b", coq/Terms.v (shared, not mine) with single ones -- harmless for the
+    engine; such statements are judged by the oracle only until the shared model follows"""
+    found = []
+
+    def f(t):
+        if t[0] == "arith" and any(isinstance(x, list) and x and x[0] == "sub" for x in (t[2], t[3])):
+            found.append(1)
+    for it in sp.all_items(spec):
+        if it[0] == "t":
+            sp.walk_terms(it[1], f)
+    return bool(found)
 
 
 def to_coq(case, outcome):
-    if case["kind"] == "sq" and sp.has_window(case["spec"]):
-        return None           # window functions are not in the shared term model
+    if case["kind"] == "sq" and (sp.has_window(case["spec"]) or _sub_arith_operand(case["spec"])):
+        return None           # window functions are not in the shared term model; see _sub_arith_operand
     hv = 0
     if case["kind"] == "sq":
         if outcome.get("verdict") == "same":
